@@ -18,7 +18,8 @@ RULE = ("(1) small - enumeration: every query word of length 0-5 over {a,b} and 
         "d sharing the prefix and nothing beyond Damerau-Levenshtein distance d (the docstring says Damerau-Levenshtein; "
         "where restricted and unrestricted Damerau disagree either is accepted), and one segment must agree with many. "
         "(2) sampled - generated lexicons over larger alphabets incl. multi-byte and non-BMP characters with term "
-        "frequencies: terms_within as above, FuzzyTerm hits = documents containing such terms, suggest(): existing "
+        "frequencies: terms_within as above, FuzzyTerm hits = documents containing such terms, correct_query(): words of the index stay, other words become an existing "
+        "term within the distance sharing the prefix or stay when there is none; suggest(): existing "
         "terms within the distance, no duplicates, limit respected, nothing closer left out, ordered by (distance, "
         "descending frequency). Non-trivial = a (word, d, p) whose expected set is neither empty nor the whole lexicon; "
         "distinct by SHA-1 of the case.")
@@ -227,6 +228,36 @@ def run_sampled(case, out):
                             out.fail("c19.suggest_limit_dropped_closer_term", {"word": w, "sug": sug, "closer": sorted(closer)[:5]})
             if hard(out):
                 return
+        # correct_query(): words that are terms of the index stay; every other word is replaced by an existing term
+        # within the distance that shares the required prefix (the best suggestion), or stays when there is none
+        ws = [w for w in dict.fromkeys(case["words"]) if w]
+        for name, ix in (("one_segment", ix1), ("many_segments", ixn)):
+            if ix is None or not ws:
+                continue
+            with ix.searcher() as s:
+                q = query.And([query.Term("t", w) for w in ws])
+                c = s.correct_query(q, None, maxdist=d, prefix=p)
+                got = [t.text for t in c.query.subqueries] if isinstance(c.query, query.And) else None
+                if got is None or len(got) != len(ws):
+                    out.fail("c19.correct_query_shape", {"words": ws, "corrected": repr(c.query)[:200]})
+                    continue
+                for w, g in zip(ws, got):
+                    lo, hi = expected(lex, w, d, p)
+                    if w in lex:
+                        if g != w:
+                            out.fail("c19.correct_query_changed_existing_word:%s" % name, {"word": w, "became": g})
+                        continue
+                    lo, hi = lo - {w}, hi - {w}
+                    if g == w:
+                        if lo:
+                            out.fail("c19.correct_query_left_misspelling:%s" % name, {"word": w, "d": d, "p": p, "candidates": sorted(lo)[:5]})
+                    elif g not in hi:
+                        out.fail("c19.correct_query_replacement_not_within_distance:%s" % name,
+                                 {"word": w, "d": d, "p": p, "became": g, "allowed": sorted(hi)[:8]})
+                    else:
+                        out.label("correct_query_replaced_a_word")
+                        if p > 0:
+                            out.label("correct_query_replaced_a_word_with_prefix")
     finally:
         for r in readers.values():
             r.close()
